@@ -55,18 +55,18 @@ func stressRun(t kit.Fataler, prop string, cfg stressCfg) stressResult {
 	if cfg.Cache {
 		cache = dnsserver.CacheConfig{Enabled: true, LRUSize: 32}
 	}
-	w := &c05World{backend: b, dir: kit.Scratch("stress"), pathGen: map[string]int{}, nextGen: 1}
+	w := &c05World{backend: b, dir: kit.Scratch("stress"), pathGen: map[string]int{}, nextGen: c05FirstGen}
 	defer func() { w.h = nil; w.close() }()
 	p0 := w.dir + "/A"
-	if err := w.makeDB(p0, 1, true); err != nil {
+	if err := w.makeDB(p0, c05FirstGen, true); err != nil {
 		fail("setup-error", "%v", err)
 	}
-	w.pathGen[p0], w.served, w.committed = 1, p0, 1
+	w.pathGen[p0], w.served, w.committed = c05FirstGen, p0, c05FirstGen
 	h, err := kit.OpenHandler(p0, b, kit.HandlerOpts{ValidationKey: kit.ValidationKey(b), Cache: cache, Stats: st})
 	if err != nil {
 		fail("setup-error", "%v", err)
 	}
-	var committed, attempted int64 = 1, 1
+	var committed, attempted int64 = c05FirstGen, c05FirstGen
 	var stopping int32
 	var started, aborted int64
 	acquiredBase := atomic.LoadInt64(&stressAcquired)
